@@ -82,6 +82,9 @@ def to_spec(it):
                           {"id": "m", "milestone": True, "deps": ["a"]},
                           {"id": "after", "effort": it["m"], "alloc": ["r1"], "deps": [d], "end": "2025-01-17-17:00"},
                           {"id": "other", "effort": 30, "alloc": ["r2"], "deps": ["m"], "end": "2025-01-17-12:00"}]}
+    if k == "dupid":
+        from mc.props import c01
+        return c01.dupid_spec(it)
     return c03.to_spec(it)
 
 
@@ -128,6 +131,8 @@ def universe(tier):
     yield from chains(tier)
     yield from c03.universe(tier)
     yield from c03.team_blockers(tier)
+    from mc.props import c01
+    yield from c01.dupids(tier)
 
 
 def run(ctx):
